@@ -459,9 +459,34 @@ pub fn framed_main(args: &[String]) {
     let n: usize = args.get(1).map(|s| s.parse().unwrap()).unwrap_or(50);
     std::panic::set_hook(Box::new(|_| {}));
     let mut rng = Rng::new(seed);
+    // regression corpus: short final responses at every cut (the size-hint defect 479ba35 withheld `* OK [Mail]`)
+    for c in [&b"* OK [Mail]\r\n"[..], b"* SORT\r\n", b"* SEARCH\r\n", b"+ \r\n", b"* 1 EXISTS\r\n", b"A1 OK\r\n", b"* OK [M] x\r\n", b"* LIST () NIL x\r\n", b"* 1 FETCH (UID 1)\r\n* S 1\r\n"] {
+        for cut in 1..c.len() {
+            let reads = vec![Rd::Chunk(c[..cut].to_vec()), Rd::NotReady, Rd::Chunk(c[cut..].to_vec()), Rd::NotReady];
+            println!("{}", run_framed(c, reads, 12));
+        }
+    }
     for k in 0..n {
         let stream = gen_stream(&mut rng);
         let polls = 40;
+        // every cut inside the last (possibly short) response of the stream
+        {
+            let mut pos = 0usize;
+            let mut last = 0usize;
+            while let Ok((rem, _)) = Response::from_bytes(&stream[pos..]) {
+                let used = stream.len() - pos - rem.len();
+                if used == 0 {
+                    break;
+                }
+                last = pos;
+                pos += used;
+            }
+            let end = pos.min(last + 120);
+            for cut in last + 1..end {
+                let reads = vec![Rd::Chunk(stream[..cut].to_vec()), Rd::NotReady, Rd::Chunk(stream[cut..].to_vec()), Rd::NotReady];
+                println!("{}", run_framed(&stream, reads, polls));
+            }
+        }
         // whole, every single cut (short streams) or sampled cuts, pairs of cuts, many cuts down to single bytes
         println!("{}", run_framed(&stream, chunked(&stream, &[], &mut rng, true, false), polls));
         let singles: Vec<usize> = if stream.len() <= 160 && k % 4 == 0 { (1..stream.len()).collect() } else { (0..12).map(|_| rng.below(stream.len().max(1))).collect() };
